@@ -333,6 +333,49 @@ pub fn ack_programs() -> Vec<Program> {
     v
 }
 
+/// A clean close is an acknowledgement too: the last handle is dropped inside the
+/// controlled phase while deletes / overwrites / inserts are still buffered, with one and
+/// with two flush workers; every crash image after the close must hold everything.
+pub fn close_programs(thorough: bool) -> Vec<Program> {
+    let t = Arc::new(tables());
+    let mut v = Vec::new();
+    let one = small(true, false, 12);
+    let mut two = one;
+    two.workers = 2;
+    let cases: Vec<(&str, Vec<Op>, Vec<Op>)> = vec![
+        ("delete;delete", vec![ins(K, V1), ins(U, VU1), Op::Flush], vec![Op::Delete { k: K, ts: 0 }, Op::Delete { k: U, ts: 0 }]),
+        ("overwrite;delete", vec![ins(K, V1), ins(U, VU1), Op::Flush], vec![ins(K, V1B), Op::Delete { k: U, ts: 0 }]),
+        ("insert;insert", vec![], vec![ins(K, V1), ins(U, VU1)]),
+        ("delete;tick;delete", vec![ins(K, V1), ins(U, VU1), Op::Flush], vec![Op::Delete { k: K, ts: 0 }, Op::Tick, Op::Delete { k: U, ts: 0 }]),
+        ("insert;tick;overwrite", vec![ins(U, VU1), Op::Flush], vec![ins(K, V1), Op::Tick, ins(U, VU2)]),
+    ];
+    for (cfg, w) in [(two, "2workers"), (one, "1worker")] {
+        for (name, setup, ops) in cases.iter().cloned() {
+            v.push(Program { name: format!("ack:close:{w}:{name}"), cfg, tables: t.clone(), setup, threads: vec![ops], observe: vec![] });
+        }
+    }
+    // three workers, one buffered delete / overwrite in each shard: the final retirement passes of
+    // three workers overlap (a pass that finds the queue busy must not lose what it queued)
+    let mut t3 = tables();
+    t3.keys.push(b"m".to_vec());
+    let t3 = Arc::new(t3);
+    let mut three = one;
+    three.workers = 3;
+    const M: u8 = 2;
+    let cases3: Vec<(&str, Vec<Op>, Vec<Op>)> = vec![
+        ("delete;delete;delete", vec![ins(K, V1), ins(U, VU1), ins(M, V1), Op::Flush], vec![Op::Delete { k: K, ts: 0 }, Op::Delete { k: U, ts: 0 }, Op::Delete { k: M, ts: 0 }]),
+        ("overwrite;delete;overwrite", vec![ins(K, V1), ins(U, VU1), ins(M, V1), Op::Flush], vec![ins(K, V1B), Op::Delete { k: U, ts: 0 }, ins(M, V1B)]),
+    ];
+    for (name, setup, ops) in cases3 {
+        if !thorough {
+            // 30 k schedules at bound 2, 25 ms each: thorough tier only
+            break;
+        }
+        v.push(Program { name: format!("ack:close:3workers:{name}"), cfg: three, tables: t3.clone(), setup, threads: vec![ops], observe: vec![] });
+    }
+    v
+}
+
 /// Flush acknowledgements racing the background flusher *while record writes fail*: the
 /// next 1 / 3 / 4 writes into the data area fail (one in-place retry; a whole batch, i.e.
 /// all three attempts; a batch and the first attempt of its successor), then the device
